@@ -42,7 +42,7 @@ func (c14) New() interface{} { return &C14Script{} }
 func (c14) Info() core.Info {
 	return core.Info{
 		Runs: map[string]int{"quick": 600000, "thorough": 40000000},
-		Rule: "Each run sends one abstract PMT (pointer_field + section + 0xFF stuffing) through a scripted packetiser/multiplexer/fragmenting reader into the real accumulator, hands Packets() (or the raw packets) to FilterPMTPacketsToPids with a scripted PID request (subset/order/absent/duplicated/PAT PID/PMT PID/empty), compares the output packets with the reference serialisation of the restricted PMT (same pointer_field, original headers, correct section_length and CRC, 0xFF padding), checks the error contract and that the inputs are untouched, then re-multiplexes the output among foreign packets and reads it back with ReadPMT over a second scripted (fragmenting/failing) reader; RemoveElementaryStreams/Pids/PIDExists are checked on the decoded PMT (the list removed is the script's own or, 1 run in 6, a slice of the PMT's own Pids() result). Non-trivial = at least one reach probe fired.",
+		Rule: "Each run sends one abstract PMT (pointer_field + section + 0xFF stuffing) through a scripted packetiser/multiplexer/fragmenting reader into the real accumulator, hands Packets() (or the raw packets) to FilterPMTPacketsToPids with a scripted PID request (subset/order/absent/duplicated/PAT PID/PMT PID/empty), compares the output packets with the reference serialisation of the restricted PMT (same pointer_field, original headers, correct section_length and CRC, 0xFF padding), checks the error contract and that the inputs are untouched, then re-multiplexes the output among foreign packets and reads it back with ReadPMT over a second scripted (fragmenting/failing) reader; RemoveElementaryStreams/Pids/PIDExists are checked on the decoded PMT (the list removed is the script's own or, 1 run in 6, a slice of the PMT's own Pids() result). Non-trivial = at least one reach probe fired. Added in waves 19-22: the request is a slice with spare capacity of a longer caller array; after the main call the caller edits the returned packets, repeats the identical request, filters another PMT (earlier results and the earlier error's text must be unchanged); another program's PMT carried on a PID this request names is filtered first; the payload is decoded a second time after RemoveElementaryStreams.",
 		Real: []string{"psi.FilterPMTPacketsToPids", "packet.Header", "packet.Payload", "gots.ComputeCRC", "packet.Accumulator + psi.PmtAccumulatorDoneFunc", "psi.ReadPMT", "psi.NewPMT", "pmt.RemoveElementaryStreams/Pids/PIDExists"},
 		Stub: []string{"PMT source + reference serialiser/CRC", "packetiser", "multiplexer", "SimReader (two legs)", "harness demux by PID"},
 		Assumptions: []string{
